@@ -451,34 +451,29 @@ _CFG_RATES = [0, Fraction(1, 8), Fraction(1, 4), Fraction(1, 2), 1, Fraction(5, 
 _CFG_TIMES = [0, Fraction(1, 4), Fraction(1, 2), 1, Fraction(3, 2), 2, Fraction(7, 2)]
 
 
-def _cfg_changes(rng, values, force_zero=False):
+def _cfg_changes(rng, values, force_zero=False, times=None):
     """a {time: value} dict with 1-3 change times in a random listing order"""
-    ts = rng.sample(_CFG_TIMES, rng.randint(1, 3))
+    ts = rng.sample(_CFG_TIMES if times is None else times, rng.randint(1, 3))
     if force_zero and 0 not in ts:
         ts[0] = 0
     return {float(t): float(rng.choice(values)) for t in ts}
 
 
-def config_glue(ctx, rng, variant=None):
-    """The glue between the user's containers and the tables the transitions use (Lean: PGModel/Config.lean, driver
-    command `config`): a REAL `Coalescent(n=…, demography=Demography(pop_sizes=…, migration_rates=…))` is built from
-    randomly named / ordered / shaped containers; the deme axis, the initial lineage vector, and - read back from the rate
-    matrix `S` of the lineage-counting state space after `update_epoch(get_epoch(t))` - the population size used for every
-    axis position and the migration rate used for every ordered pair of axis positions, and the axis position
-    `DemeReward(name)` resolves to, are compared with the model.  The real iteration order of the `set` of unsampled
-    populations is passed to the model as `setOrder`."""
-    import os
-    pg = C.import_phasegen()
-    from phasegen.rewards import DemeReward
-    variant = variant or os.environ.get('VERIF_CFG_VARIANT', 'c')
+def _cfg_input(rng, sizes=None, rates=None, times=None):
+    """random named containers `n`, `pop_sizes`, `migration_rates` in all their shapes (scalar / list / dict sample
+    configuration, unsorted names, unsampled populations omitted or listed with 0; scalar / flat / full / None sizes;
+    flat / full / None rates); the values and change times are drawn from the given pools"""
+    sizes = _CFG_SIZES if sizes is None else sizes
+    rates = _CFG_RATES if rates is None else rates
+    times = _CFG_TIMES if times is None else times
     single = rng.random() < 0.12
     if single:
         # the scalar / list shapes: one population, implicitly named pop_0
         cnt = rng.randint(2, 3)
         n = rng.choice([cnt, [cnt], {'pop_0': cnt}])
         size_shape = rng.choice(['scalar', 'flat', 'full', 'none'])
-        s0 = float(rng.choice(_CFG_SIZES))
-        pop_sizes = {'scalar': s0, 'flat': {'pop_0': s0}, 'full': {'pop_0': _cfg_changes(rng, _CFG_SIZES)}, 'none': None}[size_shape]
+        s0 = float(rng.choice(sizes))
+        pop_sizes = {'scalar': s0, 'flat': {'pop_0': s0}, 'full': {'pop_0': _cfg_changes(rng, sizes, times=times)}, 'none': None}[size_shape]
         migration = None
         mig_shape = 'none'
     else:
@@ -518,23 +513,23 @@ def config_glue(ctx, rng, variant=None):
             size_names = [rng.choice(names)]
         rng.shuffle(size_names)
         if size_shape == 'flat':
-            pop_sizes = {p: float(rng.choice(_CFG_SIZES)) for p in size_names}
+            pop_sizes = {p: float(rng.choice(sizes)) for p in size_names}
         elif size_shape == 'full':
-            pop_sizes = {p: _cfg_changes(rng, _CFG_SIZES) for p in size_names}
+            pop_sizes = {p: _cfg_changes(rng, sizes, times=times) for p in size_names}
         else:
             pop_sizes = None
         if mig_shape == 'flat':
-            migration = {pq: float(rng.choice(_CFG_RATES)) for pq in mig_pairs}
+            migration = {pq: float(rng.choice(rates)) for pq in mig_pairs}
         elif mig_shape == 'full':
-            migration = {pq: _cfg_changes(rng, _CFG_RATES) for pq in mig_pairs}
+            migration = {pq: _cfg_changes(rng, rates, times=times) for pq in mig_pairs}
         else:
             migration = None
-    n_arg = n.copy() if isinstance(n, (dict, list, np.ndarray)) else n
-    coal = pg.Coalescent(n=n_arg, demography=pg.Demography(pop_sizes=pop_sizes, migration_rates=migration))
-    axis = list(coal.lineage_config.pop_names)
-    init = [int(x) for x in coal.lineage_config.lineages]
-    D = len(axis)
-    # --- request
+    return n, pop_sizes, migration, size_shape, mig_shape
+
+
+def _cfg_tokens(n, pop_sizes, migration, size_shape, mig_shape):
+    """the driver syntax of the containers (commands `config`, `cfgepochs`): tokens of `n`, `pop_sizes`,
+    `migration_rates`, and the number of names the sample configuration lists"""
     if isinstance(n, dict):
         n_tok, n_len = (','.join(f'{p}={c}' for p, c in n.items()) or '-'), len(n)
     elif isinstance(n, (list, np.ndarray)):
@@ -557,6 +552,29 @@ def config_glue(ctx, rng, variant=None):
         m_tok = 'flat:' + ','.join(f'{p}>{q}={C.rs(v)}' for (p, q), v in migration.items())
     else:
         m_tok = '|'.join(f'{p}>{q}@{ch_tok(ch)}' for (p, q), ch in migration.items())
+    return n_tok, n_len, s_tok, m_tok
+
+
+def config_glue(ctx, rng, variant=None):
+    """The glue between the user's containers and the tables the transitions use (Lean: PGModel/Config.lean, driver
+    command `config`): a REAL `Coalescent(n=…, demography=Demography(pop_sizes=…, migration_rates=…))` is built from
+    randomly named / ordered / shaped containers; the deme axis, the initial lineage vector, and - read back from the rate
+    matrix `S` of the lineage-counting state space after `update_epoch(get_epoch(t))` - the population size used for every
+    axis position and the migration rate used for every ordered pair of axis positions, and the axis position
+    `DemeReward(name)` resolves to, are compared with the model.  The real iteration order of the `set` of unsampled
+    populations is passed to the model as `setOrder`."""
+    import os
+    pg = C.import_phasegen()
+    from phasegen.rewards import DemeReward
+    variant = variant or os.environ.get('VERIF_CFG_VARIANT', 'c')
+    n, pop_sizes, migration, size_shape, mig_shape = _cfg_input(rng)
+    n_arg = n.copy() if isinstance(n, (dict, list, np.ndarray)) else n
+    coal = pg.Coalescent(n=n_arg, demography=pg.Demography(pop_sizes=pop_sizes, migration_rates=migration))
+    axis = list(coal.lineage_config.pop_names)
+    init = [int(x) for x in coal.lineage_config.lineages]
+    D = len(axis)
+    # --- request
+    n_tok, n_len, s_tok, m_tok = _cfg_tokens(n, pop_sizes, migration, size_shape, mig_shape)
     set_order = axis[n_len:]
     so_tok = ','.join(set_order) if set_order else '-'
     ctx.count('config-cases'); ctx.count(f'config:sizes-{size_shape}'); ctx.count(f'config:mig-{mig_shape}')
@@ -627,6 +645,120 @@ def config_glue(ctx, rng, variant=None):
         if bad:
             ctx.corr_break('config-glue', request=line, t=str(t), mismatches=bad[:6], model=ans, **info)
             return
+    return info
+
+
+# ------------------------------------------------------------------------------------------ named input -> epoch schedule (C08 / C05)
+# dyadic pools: every float is an exact rational, both sides are compared exactly
+_CFGE_SIZES = [Fraction(1, 4), Fraction(1, 2), Fraction(3, 4), Fraction(3, 2), 2, 3, 5, 7, Fraction(5, 8), Fraction(9, 8)]
+_CFGE_RATES = [0, 0, 0, Fraction(1, 8), Fraction(1, 4), Fraction(1, 2), 1, Fraction(5, 4), 2, 3, Fraction(3, 8), Fraction(11, 16)]
+_CFGE_TIMES = [0, 0, Fraction(1, 4), Fraction(1, 2), 1, Fraction(3, 2), 2, Fraction(7, 2)]
+
+
+def cfg_epochs(ctx, rng):
+    """The TRANSLATION of the user's named change dictionaries into the event list of the demography model (Lean:
+    `EndToEnd.toEvents`, `EndToEnd.tableOfEpoch` in PGModel/ConfigDemo.lean, driver command `cfgepochs`) against the
+    real constructors: a REAL `Coalescent(n=…, demography=Demography(pop_sizes=…, migration_rates=…))` is built from
+    randomly named / ordered / shaped containers (generator of `config_glue`, dyadic values) and the epochs of
+    `coal.demography.epochs` -- start, end, `pop_sizes` by name and `migration_rates` by pair, read in the order of the
+    deme axis `coal.lineage_config.pop_names` -- are compared EXACTLY with the epochs the demography model generates from
+    the translated input.  The real iteration order of the `set` of unsampled populations is passed as `setOrder`."""
+    pg = C.import_phasegen()
+    times_pool = sorted(set(_CFGE_TIMES), key=lambda t: rng.random()) if rng.random() < 0.5 else _CFGE_TIMES
+    n, pop_sizes, migration, size_shape, mig_shape = _cfg_input(rng, _CFGE_SIZES, _CFGE_RATES, times_pool[:rng.randint(3, len(times_pool))])
+    n_arg = n.copy() if isinstance(n, (dict, list, np.ndarray)) else n
+    coal = pg.Coalescent(n=n_arg, demography=pg.Demography(pop_sizes=pop_sizes, migration_rates=migration))
+    axis = list(coal.lineage_config.pop_names)
+    n_tok, n_len, s_tok, m_tok = _cfg_tokens(n, pop_sizes, migration, size_shape, mig_shape)
+    set_order = axis[n_len:]
+    so_tok = ','.join(set_order) if set_order else '-'
+    count = rng.randint(1, 3) if rng.random() < 0.2 else 12
+    # --- coverage
+    full_s = pop_sizes if size_shape == 'full' else {}
+    full_m = migration if mig_shape == 'full' else {}
+    changes = [(('s', p), t, v) for p, ch in full_s.items() for t, v in ch.items()] + \
+              [(('m', pq), t, v) for pq, ch in full_m.items() for t, v in ch.items()]
+    ctx.count('cfgepochs-cases'); ctx.count(f'cfgepochs:sizes-{size_shape}'); ctx.count(f'cfgepochs:mig-{mig_shape}')
+    ctx.count(f'cfgepochs:n-{type(n).__name__}')
+    if axis != sorted(axis):
+        ctx.count('cfgepochs:axis-not-sorted')
+    if set_order:
+        ctx.count('cfgepochs:unsampled-omitted')
+    if isinstance(n, dict) and any(c == 0 for c in n.values()):
+        ctx.count('cfgepochs:unsampled-listed-with-0')
+    if any(t == 0 for _, t, _ in changes):
+        ctx.count('cfgepochs:change-at-time-0')
+    if any(t > 0 for _, t, _ in changes) and not any(t == 0 for k, t, _ in changes):
+        ctx.count('cfgepochs:no-change-at-time-0')
+    by_time = {}
+    for k, t, _ in changes:
+        by_time.setdefault(t, set()).add(k)
+    if any(len(ks) >= 2 for ks in by_time.values()):
+        ctx.count('cfgepochs:several-keys-at-the-same-time')
+    if any(len(ks) >= 2 and t > 0 and {k[0] for k in ks} == {'s', 'm'} for t, ks in by_time.items()):
+        ctx.count('cfgepochs:size-and-rate-at-the-same-positive-time')
+    if any(k[0] == 'm' and t > 0 and v == 0 for k, t, v in changes):
+        ctx.count('cfgepochs:zero-rate-set-at-positive-time')
+    if any(p not in (pop_sizes if isinstance(pop_sizes, dict) else {}) for pq in (migration or {}) for p in pq):
+        ctx.count('cfgepochs:name-only-in-migration-keys')
+    listed = list(n) if isinstance(n, dict) else [f'pop_{i}' for i in range(n_len)]
+    known = set(pop_sizes if isinstance(pop_sizes, dict) else (['pop_0'] if pop_sizes is not None else [])) | {p for pq in (migration or {}) for p in pq}
+    if any(p not in known for p in listed):
+        ctx.count('cfgepochs:sample-only-name')
+    # --- the real epochs (the generator ends with the epoch whose end time is inf)
+    real = []
+    for ep in coal.demography.epochs:
+        if len(real) == count:
+            break
+        real.append(ep)
+        if math.isinf(ep.end_time):
+            break
+    info = dict(n=n, pop_sizes=pop_sizes, migration_rates={f'{p}>{q}': v for (p, q), v in (migration or {}).items()}, axis=axis,
+                count=count)
+    line = f'cfgepochs {n_tok} {s_tok} {m_tok} {so_tok} {count}'
+    try:
+        ans = C.driver().ask(line)
+    except RuntimeError as e:
+        ctx.corr_break('cfg-epochs', what='model rejects the real set order / request', request=line, error=str(e), **info)
+        return
+    toks = ans.split(' ')
+    m_axis = toks[0].split('=', 1)[1].split(',')
+    model = []
+    for tok in toks[1:]:
+        span, sz, mg = tok.split('|')
+        a, b = span.split(',')
+        model.append((Fraction(a), None if b == 'inf' else Fraction(b), [Fraction(x) for x in sz.split(',')],
+                      [[Fraction(x) for x in row.split(',')] for row in mg.split(';')]))
+    bad = []
+    if m_axis != axis:
+        bad.append(('axis', m_axis, axis))
+    if len(model) != len(real):
+        bad.append(('number of epochs', len(model), len(real)))
+    if not bad:
+        for i, (ep, (m_start, m_stop, m_sizes, m_mig)) in enumerate(zip(real, model)):
+            r_start = Fraction(float(ep.start_time))
+            r_stop = None if math.isinf(ep.end_time) else Fraction(float(ep.end_time))
+            if (r_start, r_stop) != (m_start, m_stop):
+                bad.append(('span', i, (str(m_start), str(m_stop)), (str(r_start), str(r_stop))))
+                continue
+            if set(ep.pop_sizes) != set(axis):
+                bad.append(('epoch.pop_sizes keys', i, sorted(ep.pop_sizes), sorted(axis)))
+                continue
+            for d, p in enumerate(axis):
+                if Fraction(float(ep.pop_sizes[p])) != m_sizes[d]:
+                    bad.append(('size', i, p, str(m_sizes[d]), float(ep.pop_sizes[p])))
+                for e, q in enumerate(axis):
+                    if (p, q) not in ep.migration_rates:
+                        bad.append(('rate missing in epoch.migration_rates', i, p, q, str(m_mig[d][e])))
+                    elif Fraction(float(ep.migration_rates[(p, q)])) != m_mig[d][e]:
+                        bad.append(('rate', i, p, q, str(m_mig[d][e]), float(ep.migration_rates[(p, q)])))
+            ctx.count('cfgepochs-epochs-compared')
+    ctx.count(f'cfgepochs:epochs-{len(real)}')
+    if real and not math.isinf(real[-1].end_time):
+        ctx.count('cfgepochs:truncated-by-count')
+    if bad:
+        ctx.corr_break('cfg-epochs', request=line, mismatches=bad[:6], model=ans, **info)
+        return
     return info
 
 
@@ -1278,6 +1410,14 @@ def one_config(ctx, i):
     for _ in range(12):
         info = config_glue(ctx, rng) or info
     ctx.case(dict(kind='config-glue', batch=i, last=info), f'config-{i}')
+
+
+def one_cfg_epochs(ctx, i):
+    rng = random.Random(f'{ctx.seed}-corr-cfgepochs-{i}')
+    info = None
+    for _ in range(40):
+        info = cfg_epochs(ctx, rng) or info
+    ctx.case(dict(kind='cfg-epochs', batch=i, last=info), f'cfgepochs-{i}')
 
 
 def one_share(ctx, i):
